@@ -85,10 +85,18 @@ def run(ctx):
     feats = {}
     hdrs = header_defs()
     supported = {True: 0, False: 0}
+    dropped = 0
     for s in range(nsets):
         defs = defgen.gen_set(rng, per, start_serial=s * per)
         if s == 0:
             defs = defgen.crafted() + defs
+        # the property speaks about well-formed definitions: a drawn definition on which the *model* of
+        # the generator raises (e.g. a `null` default on a field that is not nullable in every version)
+        # is a slip of the definition generator, not a case; it is dropped and counted
+        pre = driver.run_parallel(["supported " + " ".join(gendefs.def_tokens(d)) for d in defs])
+        keep = [d for d, r in zip(defs, pre) if r.startswith("ok") and all(t.split(":")[2] == "true" for t in r.split()[1:])]
+        dropped += len(defs) - len(keep)
+        defs = keep
         res = gendefs.run_codegen(hdrs + defs, seed=ctx.seed + s)
         if res.get("gen_error"):
             fails.append({"what": "the generator fails on a supported definition set: " + res["gen_error"][:400],
@@ -214,7 +222,7 @@ def run(ctx):
         "evaluations": ncases, "distinct_nontrivial": nontrivial,
         "rule": "case = (generated definition, version); the real generator is run on the set in a scratch tree, its "
                 "modules imported in a subprocess; non-trivial iff ≥ 3 fields and at least one of nullable/tagged/nested/default",
-        "pairs_in_supported_subset": supported[True], "pairs_outside_supported_subset": supported[False],
+        "drawn_definitions_dropped_as_not_wellformed": dropped, "pairs_in_supported_subset": supported[True], "pairs_outside_supported_subset": supported[False],
         "generated_classes_not_coherent_in_model": len(incoherent), "instances_encoded": ninst[0], "definition_sets": nsets, "definitions": nsets * per, "feature_counts": feats,
         "disagreements": len(disagreements), "property_failures_on_code": len(fails), "known_finding_cases": len(known),
         "samples": [],
